@@ -49,8 +49,10 @@ RULE = ('random histories of 3-10 operations over one random tree (depth<=5, fan
         'for the whole tree or mixed), a fifth pass every str argument / match-dictionary value as an instance of a str '
         'subclass (and tuple paths as lists). Names include near misses of the special segments (three and more dots, '
         "'.a', 'a.', '@', '@@@', look-alike code points). `rmd` operations compare the match dictionary the REAL routes mapper "
-        'produces (9 routes: *stararg remainders, the traverse= option incl. a literal piece and swapped captures, a captured '
-        '{traverse} next to a traverse= option) with the model (split_path_info of the decoded pieces); `tpi` / `tp` operations '
+        'produces (11 routes: *stararg remainders, the traverse= option incl. a literal piece and swapped captures, a captured '
+        '{traverse} / *traverse / {traverse:.*} next to a traverse= option -- also with EMPTY captured values: URLs that end right '
+        'after the fixed part or whose remainder normalises to nothing) with the model (Model.traverse_entry: a captured value wins '
+        'however empty; (split_path_info of the decoded pieces); `tpi` / `tp` operations '
         'are judged by the normalisation clause. thorough adds the exhaustive small-scope sweep (coverage.exhaustive_subruns). non-trivial = the history has a traversal '
         'that consumed at least one segment AND one that stopped early (missing/leaf/@@) or ran under a virtual root; '
         'distinct by full case')
@@ -71,9 +73,9 @@ TRUSTED = [
     'literal corresponds to which Gallina primitive of Model/C02_base.v, Lib/Text, Lib/C02Expr -- listed in its docstring) '
     'is trusted; its control-flow rules are mechanical; anything outside subset or table is a broken tie, never a guess',
     'hand-written reference model coq/Model/C02.v (proved equal to the regenerated program for split_path_info, '
-    'decode_path_info, traversal_path_info, traversal_path (str argument), find_root and the WHOLE of '
-    'ResourceTreeTraverser.__call__ = preamble ; tail); hand-modelled AND shape-pinned: traverse, find_resource, '
-    'quote_path_segment, _join_path_tuple, unquote_bytes_to_wsgi, ascii_, is_nonstr_iter, url_quote, lineage',
+    'decode_path_info, traversal_path_info, traversal_path (str argument), find_root, _join_path_tuple (tuple of str) and '
+    'the WHOLE of ResourceTreeTraverser.__call__ = preamble ; tail); hand-modelled AND shape-pinned: traverse, find_resource, '
+    'quote_path_segment, unquote_bytes_to_wsgi, ascii_, is_nonstr_iter, url_quote, lineage',
     'primitive-table entries added for the preamble: request.matchdict / request.environ / request.path_info (webob: '
     'KeyError when PATH_INFO is absent, else latin-1 -> UTF-8), matchdict.get for the keys traverse / subpath with values '
     'that are a str or a tuple of str, is_nonstr_iter on such a value, self.VH_ROOT_KEY in environ; for find_root: '
@@ -94,7 +96,7 @@ TECHNIQUE = ('Coq proof (induction over the segment list / the walk) about a Gal
              'from the Python source on every run (fail-closed ast translator, leaves through a small primitive table), proved '
              'equal to a hand-written reference model + extracted-model differential correspondence over histories')
 LEVEL_TEXT = ('Machine-checked theorems for trees, paths and virtual roots of any size, stated about the program REGENERATED '
-              'from traversal.py on this run (split_path_info, decode_path_info, traversal_path_info, traversal_path, find_root '
+              'from traversal.py on this run (split_path_info, decode_path_info, traversal_path_info, traversal_path, find_root, _join_path_tuple '
               'and the whole of ResourceTreeTraverser.__call__: gen_call = gen_call_preamble ; gen_call_tail; '
               'C02_gen_*_is_model tie it to the reference model): the loop of '
               'ResourceTreeTraverser.__call__ equals the declarative outcome (context = resource at the longest walkable '
@@ -329,7 +331,9 @@ def gen_api(rng, tree, kind):
 ROUTES = [('r_star', '/r/*traverse', None), ('r_sub', '/s/{traverse}/*subpath', None),
           ('r_pred', '/t/{a}/{b}', '/{a}/{b}'), ('r_pred_sub', '/u/{a}/*subpath', '/{a}'),
           ('r_plain', '/v/{x}', None), ('r_strsub', '/w/{subpath}', None), ('r_both', '/x/{subpath}/*traverse', None),
-          ('r_cap', '/y/{traverse}/{b}', '/{b}'), ('r_pred3', '/z/{a}/{b}/*subpath', '/{b}/x/{a}')]
+          ('r_cap', '/y/{traverse}/{b}', '/{b}'), ('r_pred3', '/z/{a}/{b}/*subpath', '/{b}/x/{a}'),
+          # BOTH mechanisms on one route, where the captured value may be EMPTY (() / ''): the capture still wins
+          ('r_cap_star', '/q/{b}/*traverse', '/{b}'), ('r_cap_re', '/p/{b}/{traverse:.*}', '/{b}/k')]
 
 # what the match dictionary of each route must hold under 'traverse' / 'subpath' (operation `rmd`), as a recipe over
 # the OTHER captures of the same match (c = match dictionary, rem = decoded PATH_INFO after the literal prefix and the
@@ -337,16 +341,23 @@ ROUTES = [('r_star', '/r/*traverse', None), ('r_sub', '/s/{traverse}/*subpath', 
 # traverse= option;  ('rem', prefix pieces) = tuple split_path_info(remainder) -- a *stararg;  ('seg', k) = the k-th
 # '/'-separated piece of the decoded path as a str -- a {traverse} / {subpath} placeholder (never normalised, and a
 # captured {traverse} wins over the traverse= option)
+# per route: 'cap' = how the PATTERN captures `traverse` (None = it does not), 'opt' = the pieces of the traverse= option
+# (None = the route has none), 'subpath' = how the pattern captures `subpath`.  The model decides what the entry is:
+# a captured value -- even an empty one -- wins over the option (Model.traverse_entry).
+#   ('rem', prefix pieces) tuple split_path_info(decoded remainder)   ('remstr', prefix pieces) the remainder as a str
+#   ('seg', k) the k-th '/'-piece of the decoded path as a str         option pieces: capture names, '=x' = the literal x
 RECIPES = {
-    'r_star': {'traverse': ('rem', ['/r/'])},
-    'r_sub': {'traverse': ('seg', 2), 'subpath': ('rem', ['/s/', 'traverse', '/'])},
-    'r_pred': {'traverse': ('parts', ['a', 'b'])},
-    'r_pred_sub': {'traverse': ('parts', ['a']), 'subpath': ('rem', ['/u/', 'a', '/'])},
+    'r_star': {'cap': ('rem', ['/r/'])},
+    'r_sub': {'cap': ('seg', 2), 'subpath': ('rem', ['/s/', 'traverse', '/'])},
+    'r_pred': {'opt': ['a', 'b']},
+    'r_pred_sub': {'opt': ['a'], 'subpath': ('rem', ['/u/', 'a', '/'])},
     'r_plain': {},
     'r_strsub': {'subpath': ('seg', 2)},
-    'r_both': {'subpath': ('seg', 2), 'traverse': ('rem', ['/x/', 'subpath', '/'])},
-    'r_cap': {'traverse': ('seg', 2)},
-    'r_pred3': {'traverse': ('parts', ['b', '=x', 'a']), 'subpath': ('rem', ['/z/', 'a', '/', 'b', '/'])},
+    'r_both': {'subpath': ('seg', 2), 'cap': ('rem', ['/x/', 'subpath', '/'])},
+    'r_cap': {'cap': ('seg', 2), 'opt': ['b']},
+    'r_pred3': {'opt': ['b', '=x', 'a'], 'subpath': ('rem', ['/z/', 'a', '/', 'b', '/'])},
+    'r_cap_star': {'cap': ('rem', ['/q/', 'b', '/']), 'opt': ['b']},
+    'r_cap_re': {'cap': ('remstr', ['/p/', 'b', '/']), 'opt': ['b', '=k']},
 }
 
 
@@ -367,38 +378,50 @@ def _rmd_info(o):
 def _rmd_wire(o):
     got = _rmd_info(o)
     if got is None:
-        return [7, [], []]
+        return [7, [], [], []]
     name, match, decoded = got
-    out = []
-    for key in ('traverse', 'subpath'):
-        r = RECIPES.get(name, {}).get(key)
+    rec = RECIPES.get(name, {})
+
+    def captured(r):
         if r is None:
-            out.append([])
-        elif r[0] == 'parts':
-            out.append([[n[1:] if n.startswith('=') else match[n] for n in r[1]]])      # '=x' = the literal x
-        elif r[0] == 'seg':
-            out.append([decoded.split('/')[r[1]]])
-        else:
-            prefix = ''.join(match[x] if x in match else x for x in r[1])
-            out.append([[decoded[len(prefix):]]] if decoded.startswith(prefix) else [['\x00PREFIX-MISMATCH']])
-    return [7] + out
+            return []
+        if r[0] == 'seg':
+            return [decoded.split('/')[r[1]]]
+        # the capture names of the prefix are those of the pattern BEFORE the remainder (never `traverse` itself when
+        # it is the remainder that is being captured)
+        prefix = ''.join(match[x] if (x in match and not x.startswith('/')) else x for x in r[1])
+        if not decoded.startswith(prefix):
+            return [['\x00PREFIX-MISMATCH']]
+        rem = decoded[len(prefix):]
+        return [rem] if r[0] == 'remstr' else [[rem]]
+    opt = rec.get('opt')
+    optw = [] if opt is None else [[n[1:] if n.startswith('=') else match[n] for n in opt]]
+    return [7, captured(rec.get('cap')), captured(rec.get('subpath')), optw]
+
+
+NOTHING = [[], [''], ['.'], ['', ''], ['a', '..'], ['.', ''], ['..'], ['a', 'b', '..', '..']]     # remainders that normalise to ()
 
 
 def gen_route_op(rng, tree):
     segs = gen_segments(rng, tree)
-    prefix = rng.choice(['/r', '/r', '/s', '/t', '/u', '/v', '/w', '/x', '/r', '/nomatch', '/y', '/z', '/t', '/u'])
-    if prefix in ('/s', '/u', '/x') and rng.random() < 0.7:
-        segs = (segs[:1] or [rng.choice(NAMES)]) + gen_segments(rng, None)
-    elif prefix == '/z' and rng.random() < 0.8:
+    prefix = rng.choice(['/r', '/r', '/s', '/t', '/u', '/v', '/w', '/x', '/r', '/nomatch', '/y', '/z', '/t', '/u',
+                         '/q', '/q', '/p', '/p'])
+    r = rng.random()
+    if prefix in ('/s', '/u', '/x', '/q', '/p') and r < 0.75:
+        segs = (segs[:1] or [rng.choice(NAMES)]) + gen_segments(rng, tree if prefix in ('/q', '/p') else None)
+    elif prefix == '/z' and r < 0.8:
         segs = (segs + [rng.choice(NAMES), rng.choice(NAMES)])[:2] + gen_segments(rng, None)
-    elif prefix == '/y' and rng.random() < 0.8:
+    elif prefix in ('/y', '/t') and r < 0.8:
         segs = (segs + [rng.choice(NAMES), rng.choice(NAMES)])[:2]
-    elif False:
-        segs = (segs[:1] or [rng.choice(NAMES)]) + gen_segments(rng, None)
-    elif prefix == '/t' and rng.random() < 0.8:
-        segs = (segs + [rng.choice(NAMES), rng.choice(NAMES)])[:2]
-    elif prefix in ('/v', '/w') and rng.random() < 0.8:
+    elif prefix in ('/v', '/w') and r < 0.8:
         segs = (segs + [rng.choice(NAMES)])[:1]
+    if rng.random() < 0.2:
+        # the URL ends right after the fixed part / the captured remainder normalises to nothing (falsy captured values)
+        fixed = {'/r': 0, '/s': 1, '/u': 1, '/x': 1, '/z': 2, '/q': 1, '/p': 1}.get(prefix)
+        if fixed is not None:
+            head = (segs + [rng.choice(NAMES), rng.choice(NAMES)])[:fixed]
+            pi = prefix + ''.join('/' + x for x in head) + '/' + '/'.join(rng.choice(NOTHING))
+            return {'k': 'route' if rng.random() < 0.6 else 'rmd', 'path_info': wsgi(pi), 'vroot': gen_vroot(rng, tree)}
     pi = prefix + join_plain(rng, segs)
     if rng.random() < 0.04:
         pi = wsgi(pi) + rng.choice(['\xff', '\xc3'])
@@ -1416,6 +1439,13 @@ def targeted(broken, disagreements, rng):
                                         {'k': 'api', 'start': [1], 'path': ['', nm, 'x']},
                                         {'k': 'find', 'start': [], 'path': 'a/' + quote_seg(rng, nm)},
                                         {'k': 'route', 'path_info': '/r' + w + '/x', 'vroot': None}]})
+    # falsy captured values: the URL ends right after the fixed part of a route, or the remainder normalises to nothing
+    for pre in ['/r', '/s/a', '/u/a', '/x/a', '/z/a/b', '/q/a', '/p/a', '/q/b', '/p/b']:
+        for nothing in NOTHING:
+            pi = pre + '/' + '/'.join(nothing)
+            out.append({'tree': t, 'ops': [{'k': 'rmd', 'path_info': pi, 'vroot': None},
+                                            {'k': 'route', 'path_info': pi, 'vroot': None},
+                                            {'k': 'route', 'path_info': pi, 'vroot': '/a'}]})
     # odd-but-legitimate resource objects (falsy, empty, equal-to-everything, unhashable, no __parent__ on the root):
     # absolute and relative paths from a deep start, PATH_INFO under a virtual root, the Router
     for f in FLAVOURS[1:]:
